@@ -58,7 +58,32 @@ def gen_cases(ctx):
             l1 = [a + o for a, o in zip(l1, off)]; u1 = [a + o for a, o in zip(u1, off)]
             l2 = [a + o for a, o in zip(l2, off)]; u2 = [a + o for a, o in zip(u2, off)]
         cases.append({"cone": cn, "W": W, "l1": l1, "u1": u1, "l2": l2, "u2": u2, "rel": kind, "offset": "0" if off is None else f"2^{k}"})
+    # bounds typed the way the library's own tests type them (deterministic stream): whole-number lower corners held in an
+    # integer array, fractional upper corners; cones in which the upper corners matter
+    import random as _random
+    drng = _random.Random(1111)
+    for k in range(60 if ctx.quick else 600):
+        m = 2 if k % 3 else 3
+        cones = gen.CONES_2D if m == 2 else gen.CONES_3D
+        cn = (["acute2", "narrow2", "line2", "wide2"] if m == 2 else ["acute3", "four3", "six3"])[k % (4 if m == 2 else 3)]
+        def rbi():
+            lo = [Fraction(drng.randint(-3, 3)) for _ in range(m)]
+            return lo, [a + Fraction(drng.choice([1, 2, 3, 5, 7]), 4) for a in lo]
+        l2, u2 = rbi()
+        d = [Fraction(drng.randint(0, 3)) for _ in range(m)]
+        l1 = [a + x for a, x in zip(l2, d)]; u1 = [a + Fraction(drng.choice([1, 2, 3, 6]), 4) for a in l1]
+        if k % 2:
+            l1, u1, l2, u2 = l2, u2, l1, u1
+        cases.append({"cone": cn, "W": cones[cn][0], "l1": l1, "u1": u1, "l2": l2, "u2": u2, "rel": "int-lower", "offset": "0", "int_lower": True})
     return cases
+
+
+def _rect(c, which):
+    lo, up = c["l" + which], c["u" + which]
+    if c.get("int_lower"):
+        from vopy.confidence_region import RectangularConfidenceRegion
+        return RectangularConfidenceRegion(len(lo), np.array([int(x) for x in lo]), np.array(gen.fl(up), dtype=float))
+    return impl.rect(lo, up)
 
 
 def evaluate(ctx, cases):
@@ -68,7 +93,7 @@ def evaluate(ctx, cases):
     for c in cases:
         order = impl.order_from_W(c["W"])
         try:
-            r = bool(confidence_region_check_dominates(order, impl.rect(c["l1"], c["u1"]), impl.rect(c["l2"], c["u2"])))
+            r = bool(confidence_region_check_dominates(order, _rect(c, "1"), _rect(c, "2")))
         except Exception as e:
             r = "EXC:" + type(e).__name__
         impl_out.append(r)
